@@ -466,6 +466,9 @@ class ModuleVistor(NodeVisitor):
         _localNameToFullName = self.builder.current._localNameToFullName_map
         for al in node.names:
             targetname, asname = al.name, al.asname
+            # Like the interpreter, have a look at the imported module first, 
+            # so that the result doesn't depend on which module is analysed first.
+            self.system.getProcessedModule(targetname)
             if asname is None:
                 # we're keeping track of all defined names
                 asname = targetname = targetname.split('.')[0]
